@@ -329,6 +329,13 @@ fn c08(rng: &mut Rng, tier: &str, idx: usize) -> Case {
     let max_terms = *rng.pick(&[2usize, 4, 6, 9, 14, 24]);
     let max_recs = *rng.pick(&[3usize, 3, 5]);
     let (mut f, _) = gen_facts(rng, &DagOpts { max_terms, with_roots: !noroots, max_recs });
+    if idx % 40 == 23 && !noroots {
+        // counts beyond one byte: a term with 255 .. 513 parents, a term with as many children, records
+        // listing as many terms
+        let width = *rng.pick(&[255usize, 256, 257, 300, 513]);
+        f = gen_fan(rng, width);
+        c.stat("fan_files", 1);
+    }
     if rng.chance(1, 8) {
         // a name of exactly 255 / 254 bytes, multi-byte at the end
         let i = rng.below(f.terms.len() as u64) as usize;
@@ -378,7 +385,18 @@ fn c08(rng: &mut Rng, tier: &str, idx: usize) -> Case {
         c.stat("files_with_permuted_records", 1);
     }
     // damage: every truncation offset, suffixes of 1-8 bytes, all 256 version bytes
-    c.op(format!("cuts {} 0 {}", hex(&bytes), bytes.len()));
+    if bytes.len() > 6000 {
+        // a large (fan) file: the truncation offsets at both ends and three windows inside
+        let n = bytes.len();
+        c.op(format!("cuts {} 0 48", hex(&bytes)));
+        c.op(format!("cuts {} {} {}", hex(&bytes), n - 48, n));
+        for _ in 0..3 {
+            let lo = rng.range(48, (n - 100) as u64) as usize;
+            c.op(format!("cuts {} {} {}", hex(&bytes), lo, lo + 24));
+        }
+    } else {
+        c.op(format!("cuts {} 0 {}", hex(&bytes), bytes.len()));
+    }
     let ext: Vec<u8> = match rng.below(3) {
         0 => vec![0; 8],
         _ => (0..8).map(|_| rng.below(256) as u8).collect(),
